@@ -80,6 +80,10 @@ func checkC01(c *Ctx) {
 		if i%2 == 0 {
 			o.Mempool = 500 // the primary also serves mempool checks, the twins see the blocks only
 		}
+		if i%3 == 0 {
+			o.Gen.NReserved = 6
+			withScenarios(o, scenVanityBurst(int64(2+i%5)))
+		}
 		hr := runHistory(c, i, c.Rng("hist-C01", i), o)
 		hr.Report("C01")
 		prims[i] = &prim{hr, o}
